@@ -27,6 +27,7 @@ type Profile struct {
 	PDocNoise                                 float64
 	PLongValues                               float64 // clauses with more than 100 values, on the operators whose operands are pre-parsed
 	PSegBucket                                float64 // extra weight on weighted segment rules with a bucket-by attribute, some of them invalid references
+	PCrossNames                               float64 // unknown properties named like properties of other objects
 	PMissingAttr                              float64 // a non-first clause of a flag rule without the "attribute" property
 	PSegTwoRules                              float64 // segment = [rule bucketing by an attribute that does not match; rule weighted by key at the split point]
 	PEmptyKeyLists                            float64 // "" in a segment's included / excluded list when the context has an empty key
@@ -1151,6 +1152,22 @@ func (w *World) noise(doc *J, depth int) {
 			pos := r.Intn(len(doc.O) + 1)
 			kv := KV{r.Pick([]string{"unknownProp", "_x", "Key", "extra"}), w.anyValue(0)}
 			doc.O = append(doc.O[:pos:pos], append([]KV{kv}, doc.O[pos:]...)...)
+		}
+		if w.p.PCrossNames > 0 && r.P(w.p.PCrossNames) {
+			// a property that means something in another kind of object (a "variation" inside a segment target, a "weight"
+			// inside a clause ...) is an unknown property here, whatever its value; where the name IS known the model decides
+			name := r.Pick([]string{"variation", "weight", "values", "key", "kind", "op", "attribute", "negate", "rollout", "seed",
+				"bucketBy", "contextKind", "id", "clauses", "salt", "version", "generation", "unbounded", "included", "on", "rules", "targets"})
+			present := false
+			for _, kv := range doc.O {
+				if kv.K == name {
+					present = true
+				}
+			}
+			if !present {
+				pos := r.Intn(len(doc.O) + 1)
+				doc.O = append(doc.O[:pos:pos], append([]KV{{name, w.anyValue(0)}}, doc.O[pos:]...)...)
+			}
 		}
 		// hand-written documents leave default-valued scalars out: a later array element must not inherit
 		// what an earlier one spelled out
